@@ -156,6 +156,31 @@ func VP_C12_Canonical() {
 		ok = ok && bytes.Equal(ritems[len(items)-1-i], items[i])
 	}
 	vpAssert(ok, "reverse complement yields the same items in opposite order")
+	// rerun=1: ONE iterator value ranged over three times - abandoned after a
+	// nondeterministic number of items, then twice in full: every range over
+	// it yields the items from the start
+	if vpCaseOr("rerun", 0) == 1 {
+		it := CanonicalSubsequences(seq, k)
+		stop := vpChoice("stopAt", want+1)
+		cnt := 0
+		for range it {
+			if cnt == stop {
+				break
+			}
+			cnt++
+		}
+		for pass := 0; pass < 2; pass++ {
+			var again [][]byte
+			for km := range it {
+				again = append(again, append([]byte(nil), km...))
+			}
+			ok = len(again) == want
+			for i := 0; ok && i < want; i++ {
+				ok = ok && bytes.Equal(again[i], items[i])
+			}
+			vpAssert(ok, "ranging again over the same iterator value yields the same items from the start")
+		}
+	}
 	// the same buffer refilled with another sequence of the same length (a
 	// read buffer re-used for the next read) and scanned again, with no call on
 	// another slice in between
